@@ -342,9 +342,9 @@ public:
       if (lba >= sectors_.size())
 	return std::nullopt;
       SectorAddress addr;
-      const auto sectors_per_side = geom_.cylinders * geom_.sectors;
-      addr.head = lba / sectors_per_side;
-      lba = lba % sectors_per_side;
+      // This adapter presents one side; the sectors of side 1 are
+      // recorded with head number 1 (see check_track_is_supported).
+      addr.head = static_cast<unsigned char>(side_);
       addr.cylinder = lba / geom_.sectors;
       addr.record = lba % geom_.sectors;
       std::vector<Sector>::const_iterator it = find_sector(addr);
